@@ -154,7 +154,8 @@ def run_state(desc):
                         nxt.append(end)
             frontier = nxt
         # unreachable cache states are still legal starting points after update_pose etc.: cover all vertices
-        for start in range(nv):
+        referenced = set(int(i) for i in np.asarray(col.triangles).ravel())    # only referenced vertices are legal cache states
+        for start in sorted(referenced):
             if start in seen:
                 continue
             for di, d in enumerate(dirs):
